@@ -307,4 +307,274 @@ theorem pushDefaultKAll_appends : ∀ (fs : BL) (k : Nat) (fs' : BL) (len : Nat)
     · exact hk a ha
 end
 
+/-! ### `serialize_none` -/
+
+theorem isSome_of_setValidity_false {v v' : Validity} {n : Nat} (hv : VLen v n) (h : setValidity v n false = .ok v') :
+    v' = v.map (· ++ [false]) ∧ v.isSome = true := by
+  obtain ⟨h1, h2⟩ := setValidity_ok hv h
+  refine ⟨h1, ?_⟩
+  cases v with
+  | none => simp at h2
+  | some _ => rfl
+
+theorem pushNone_appends : ∀ (b b' : B), WFB b → Safe b → pushNone b = .ok b' → WFB b' ∧ dec b' = dec b ++ [.null]
+  | .null p len, b', _, _, h => by
+    simp [pushNone] at h; subst h
+    exact ⟨by simp [WFB], null_step p len 1⟩
+  | .unknownVariant p, b', _, _, h => by simp [pushNone, ctx_ok, fail] at h
+  | .leaf p k v vals, b', hwf, _, h => by
+    simp only [pushNone, ctx_ok] at h
+    obtain ⟨v', h1, h2⟩ := (bind_ok _ _ _).1 h
+    cases h2
+    have hv : VLen v vals.length := by simpa [WFB] using hwf
+    obtain ⟨rfl, hs⟩ := isSome_of_setValidity_false hv h1
+    have := leaf_step hwf false 0
+    rwa [rowOf_false_of_isSome hs] at this
+  | .bytes p ty v offs data, b', hwf, _, h => by
+    simp only [pushNone, ctx_ok] at h
+    obtain ⟨v', h1, h2⟩ := (bind_ok _ _ _).1 h
+    obtain ⟨o', h3, h4⟩ := (bind_ok _ _ _).1 h2
+    cases h4
+    have hv : VLen v (offs.length - 1) := by simp only [WFB] at hwf; exact hwf.2
+    obtain ⟨rfl, hs⟩ := isSome_of_setValidity_false hv h1
+    obtain ⟨l, hl, rfl⟩ := duplicateLast_ok h3
+    rw [bytes_last hwf] at hl; cases hl
+    have := bytes_step hwf false []
+    simp only [List.length_nil, Int.natCast_zero, Int.add_zero, List.append_nil] at this
+    rwa [rowOf_false_of_isSome hs] at this
+  | .bytesView p ty v views buf, b', hwf, _, h => by
+    simp only [pushNone, ctx_ok] at h
+    obtain ⟨v', h1, h2⟩ := (bind_ok _ _ _).1 h
+    cases h2
+    have hv : VLen v views.length := by simp only [WFB] at hwf; exact hwf.1
+    obtain ⟨rfl, hs⟩ := isSome_of_setValidity_false hv h1
+    have := view_step hwf false (packInline []) [] (decodeView_inline_isOk _ _ (by simp))
+    simp only [List.append_nil] at this
+    rwa [rowOf_false_of_isSome hs] at this
+  | .fixedSizeBinary p n len v buf cur, b', hwf, _, h => by
+    simp only [pushNone, ctx_ok] at h
+    obtain ⟨v', h1, h2⟩ := (bind_ok _ _ _).1 h
+    cases h2
+    have hv : VLen v len := by simp only [WFB] at hwf; exact hwf.1
+    obtain ⟨rfl, hs⟩ := isSome_of_setValidity_false hv h1
+    have := fsb_step hwf false (List.replicate n 0) (by simp) cur
+    rwa [rowOf_false_of_isSome hs] at this
+  | .list p large fm v offs el, b', hwf, _, h => by
+    simp only [pushNone, ctx_ok] at h
+    obtain ⟨v', h1, h2⟩ := (bind_ok _ _ _).1 h
+    obtain ⟨o', h3, h4⟩ := (bind_ok _ _ _).1 h2
+    cases h4
+    have hw' := hwf
+    simp only [WFB] at hw'
+    obtain ⟨rfl, hs⟩ := isSome_of_setValidity_false hw'.2.1 h1
+    obtain ⟨l, hl, rfl⟩ := duplicateLast_ok h3
+    rw [hw'.1.2.1] at hl; cases hl
+    have := list_step hwf false [] hw'.2.2 (by simp)
+    simp only [List.length_nil, Int.natCast_zero, Int.add_zero] at this
+    rwa [rowOf_false_of_isSome hs] at this
+  | .fixedSizeList p fm n len v cur el, b', hwf, hsafe, h => by
+    simp only [pushNone, ctx_ok] at h
+    obtain ⟨v', h1, h2⟩ := (bind_ok _ _ _).1 h
+    obtain ⟨el', h3, h4⟩ := (bind_ok _ _ _).1 h2
+    cases h4
+    have hw' := hwf
+    simp only [WFB] at hw'
+    obtain ⟨rfl, hs⟩ := isSome_of_setValidity_false hw'.1 h1
+    simp only [Safe] at hsafe
+    obtain ⟨hel, ls, hls, hdec, _⟩ := pushDefaultK_appends el n el' hw'.2.2 (hsafe.2 hs) h3
+    have := fsl_step hwf false ls cur hel hdec hls
+    rwa [rowOf_false_of_isSome hs] at this
+  | .map p mm v offs ks vs, b', hwf, _, h => by
+    simp only [pushNone, ctx_ok] at h
+    obtain ⟨v', h1, h2⟩ := (bind_ok _ _ _).1 h
+    obtain ⟨o', h3, h4⟩ := (bind_ok _ _ _).1 h2
+    cases h4
+    have hw' := hwf
+    simp only [WFB] at hw'
+    obtain ⟨rfl, hs⟩ := isSome_of_setValidity_false hw'.2.2.1 h1
+    obtain ⟨l, hl, rfl⟩ := duplicateLast_ok h3
+    rw [hw'.1.2.1] at hl; cases hl
+    have := map_step hwf false [] [] hw'.2.2.2.1 hw'.2.2.2.2 (by simp) (by simp) rfl
+    simp only [List.length_nil, Int.natCast_zero, Int.add_zero] at this
+    rwa [rowOf_false_of_isSome hs] at this
+  | .struct p len v fs cached next seen, b', hwf, hsafe, h => by
+    simp only [pushNone, ctx_ok] at h
+    obtain ⟨v', h1, h2⟩ := (bind_ok _ _ _).1 h
+    obtain ⟨fs', h3, h4⟩ := (bind_ok _ _ _).1 h2
+    cases h4
+    have hw' := hwf
+    simp only [WFB] at hw'
+    obtain ⟨rfl, hs⟩ := isSome_of_setValidity_false hw'.1 h1
+    simp only [Safe] at hsafe
+    obtain ⟨adds, hext, hk⟩ := pushDefaultKAll_appends fs 1 fs' len hw'.2.1 (hsafe.2 hs) h3
+    have := struct_append (cached' := cached) (next' := next) (seen' := seen) hwf adds [false] hext (by simpa using hk)
+      (by rw [ExtL.names fs fs' adds hext]; exact hw'.2.2.2.2)
+      (by rw [(ExtL.length fs fs' adds hext).1]; exact hw'.2.2.1)
+    simp only [List.length_singleton, List.range_one, List.map_cons, List.map_nil, maskNull_const_one] at this
+    rwa [rowOf_false_of_isSome hs] at this
+  | .dictionary p idx vals index, b', hwf, hsafe, h => by
+    simp only [pushNone, ctx_ok] at h
+    obtain ⟨idx', h1, h2⟩ := (bind_ok _ _ _).1 h
+    cases h2
+    have hw' := hwf
+    simp only [WFB] at hw'
+    simp only [Safe] at hsafe
+    obtain ⟨hidx, hdec⟩ := pushNone_appends idx idx' hw'.1 hsafe.1 ((ctx_ok _ _ _).1 h1)
+    have := dict_append hwf [.null] [] [] hidx hw'.2.1 hdec (by simp) (by simpa using hw'.2.2.1) rfl (by
+      intro k' hk' j hj
+      simp at hk'; subst hk'; cases hj)
+    simpa [dictRow] using this
+  | .union p fs types offs cur, b', _, _, h => by simp [pushNone, ctx_ok, fail] at h
+
+/-! ### scalar calls -/
+
+theorem tryInto_ok {t : IntTy} {v w : Int} (h : tryInto t v = .ok w) : w = v := by
+  unfold tryInto at h
+  split at h
+  · cases h; rfl
+  · simp [fail] at h
+
+theorem convLeaf_int {ext : Ext} {k : LeafKind} {t : IntTy} {v val j : Int}
+    (h : convLeaf ext k (.int t v) = .ok val) (hj : leafVal k val = .int j) : j = v := by
+  have e1 : ∀ {a b : Int}, (Except.ok a : R Int) = .ok b → b = a := by intro a b h; cases h; rfl
+  cases k <;> cases t <;> simp only [convLeaf, notSupported, fail, leafVal] at h hj <;>
+    first
+    | (cases h; done)
+    | (cases hj; done)
+    | (cases hj; exact tryInto_ok h)
+    | (cases hj; exact e1 h)
+    | (cases hj; split at h <;> first | exact e1 h | exact tryInto_ok h | cases h)
+
+/-- the row a scalar call appends (and, for an integer call, that an integer row shows exactly that integer) -/
+theorem pushScalar_appends (ext : Ext) : ∀ (b : B) (x : SVal) (b' : B), WFB b → pushScalar ext b x = .ok b' →
+    WFB b' ∧ ∃ lv, dec b' = dec b ++ [lv] ∧ (∀ t v j, x = .int t v → lv = .int j → j = v)
+  | .null p len, x, b', _, h => by
+    unfold pushScalar at h
+    split at h
+    · cases h
+      exact ⟨by simp [WFB], .null, null_step p len 1, by intro t v j hx; cases hx⟩
+    · simp [notSupported, fail] at h
+  | .unknownVariant p, x, b', _, h => by simp [pushScalar, fail] at h
+  | .leaf p k v vals, x, b', hwf, h => by
+    simp only [pushScalar] at h
+    obtain ⟨val, hc, h2⟩ := (bind_ok _ _ _).1 h
+    obtain ⟨v', h3, h4⟩ := (bind_ok _ _ _).1 h2
+    cases h4
+    have hv : VLen v vals.length := by simpa [WFB] using hwf
+    obtain ⟨rfl, _⟩ := setValidity_ok hv h3
+    obtain ⟨g1, g2⟩ := leaf_step hwf true val
+    rw [rowOf_true] at g2
+    refine ⟨g1, _, g2, ?_⟩
+    intro t w j hx hj
+    subst hx
+    exact convLeaf_int hc hj
+  | .bytes p ty v offs data, x, b', hwf, h => by
+    simp only [pushScalar] at h
+    obtain ⟨bs, _, h2⟩ := (bind_ok _ _ _).1 h
+    obtain ⟨v', h3, h4⟩ := (bind_ok _ _ _).1 h2
+    obtain ⟨o1, h5, h6⟩ := (bind_ok _ _ _).1 h4
+    obtain ⟨o2, h7, h8⟩ := (bind_ok _ _ _).1 h6
+    cases h8
+    have hv : VLen v (offs.length - 1) := by simp only [WFB] at hwf; exact hwf.2
+    obtain ⟨rfl, _⟩ := setValidity_ok hv h3
+    obtain ⟨l, hl, rfl⟩ := duplicateLast_ok h5
+    rw [bytes_last hwf] at hl; cases hl
+    have := incrementLast_snoc h7
+    subst this
+    obtain ⟨g1, g2⟩ := bytes_step hwf true bs
+    rw [rowOf_true] at g2
+    refine ⟨g1, _, g2, ?_⟩
+    intro t w j _ hj
+    simp only [bytesVal] at hj
+    split at hj <;> cases hj
+  | .bytesView p ty v views buf, x, b', hwf, h => by
+    simp only [pushScalar] at h
+    obtain ⟨bs, _, h2⟩ := (bind_ok _ _ _).1 h
+    obtain ⟨v', h3, h4⟩ := (bind_ok _ _ _).1 h2
+    have hv : VLen v views.length := by simp only [WFB] at hwf; exact hwf.1
+    obtain ⟨rfl, _⟩ := setValidity_ok hv h3
+    obtain ⟨d, extra, hp, hd⟩ := viewPushValue_spec views buf bs
+    rw [hp] at h4
+    cases h4
+    obtain ⟨g1, g2⟩ := view_step hwf true d extra hd
+    rw [rowOf_true] at g2
+    refine ⟨g1, _, g2, ?_⟩
+    intro t w j _ hj
+    simp only [bytesVal] at hj
+    split at hj <;> cases hj
+  | .fixedSizeBinary p n len v buf cur, x, b', hwf, h => by
+    unfold pushScalar at h
+    split at h
+    · split at h
+      · simp [fail] at h
+      · rename_i bs hn
+        obtain ⟨v', h3, h4⟩ := (bind_ok _ _ _).1 h
+        cases h4
+        have hv : VLen v len := by simp only [WFB] at hwf; exact hwf.1
+        obtain ⟨rfl, _⟩ := setValidity_ok hv h3
+        obtain ⟨g1, g2⟩ := fsb_step hwf true bs (by simpa using hn) cur
+        rw [rowOf_true] at g2
+        exact ⟨g1, _, g2, by intro t w j hx; cases hx⟩
+    · simp [notSupported, fail] at h
+  | .dictionary p idx vals index, x, b', hwf, h => by
+    unfold pushScalar at h
+    simp only at h
+    have hw' := hwf
+    simp only [WFB] at hw'
+    split at h
+    · rename_i s _
+      split at h
+      · rename_i i hi
+        obtain ⟨idx', h1, h2⟩ := (bind_ok _ _ _).1 h
+        cases h2
+        obtain ⟨hidx, lv, hdec, hint⟩ := pushScalar_appends ext idx _ idx' hw'.1 h1
+        have hlt : i < index.length := by
+          have := SaModel.Props.C11Front.indexOfName_some index s i hi
+          rcases Nat.lt_or_ge i index.length with h | h
+          · exact h
+          · rw [List.getElem?_eq_none_iff.mpr h] at this; cases this
+        obtain ⟨g1, g2⟩ := dict_append hwf [lv] [] [] hidx hw'.2.1 hdec (by simp) (by simpa using hw'.2.2.1) rfl (by
+          intro k' hk' j hj
+          simp at hk'; subst hk'
+          have := hint _ _ j rfl hj
+          subst this
+          simp; omega)
+        simp only [List.append_nil] at g1 g2
+        refine ⟨g1, _, g2, ?_⟩
+        intro t w j hx
+        subst hx
+        simp at *
+      · rename_i hi
+        obtain ⟨vals', h1, h2⟩ := (bind_ok _ _ _).1 h
+        obtain ⟨idx', h3, h4⟩ := (bind_ok _ _ _).1 h2
+        cases h4
+        obtain ⟨hvals, lw, hdecv, _⟩ := pushScalar_appends ext vals _ vals' hw'.2.1 h1
+        obtain ⟨hidx, lv, hdec, hint⟩ := pushScalar_appends ext idx _ idx' hw'.1 h3
+        have hnotin : s ∉ index := by
+          intro hmem
+          obtain ⟨i, hi', he⟩ := List.getElem_of_mem hmem
+          have := SaModel.Props.C11Front.indexOfName_go_none s index 0 hi i
+          apply this
+          simp [hi', he]
+        obtain ⟨g1, g2⟩ := dict_append hwf [lv] [lw] [s] hidx hvals hdec hdecv
+          (by
+            rw [List.nodup_append]
+            exact ⟨hw'.2.2.1, by simp, by intro a ha b hb; simp at hb; subst hb; intro he; subst he; exact hnotin ha⟩)
+          rfl (by
+          intro k' hk' j hj
+          simp at hk'; subst hk'
+          have := hint _ _ j rfl hj
+          subst this
+          simp)
+        refine ⟨g1, _, g2, ?_⟩
+        intro t w j hx
+        subst hx
+        simp at *
+    · simp [notSupported, fail] at h
+  | .list _ _ _ _ _ _, x, b', _, h => by simp [pushScalar, notSupported, fail] at h
+  | .fixedSizeList _ _ _ _ _ _ _, x, b', _, h => by simp [pushScalar, notSupported, fail] at h
+  | .map _ _ _ _ _ _, x, b', _, h => by simp [pushScalar, notSupported, fail] at h
+  | .struct _ _ _ _ _ _ _, x, b', _, h => by simp [pushScalar, notSupported, fail] at h
+  | .union _ _ _ _ _, x, b', _, h => by simp [pushScalar, notSupported, fail] at h
+
 end SaModel.Build
